@@ -149,6 +149,37 @@ Fixpoint wfs (v : sval) : bool :=
   | SNumLit l => number_text_ok l
   end.
 
+(* ---- which call trees are serialisable: every map key is a string, a string-like call, or a finite scalar ------------- *)
+Fixpoint key_ok (k : sval) : bool :=
+  match k with
+  | SStr _ | SUnitVariant _ | SChar _ | SCollectStr _ | SBool _ | SInt _ _ => true
+  | SF32 b => finite32 b
+  | SF64 b => finite64 b
+  | SSome v => key_ok v
+  | SNewtypeStruct v => key_ok v
+  | _ => false
+  end.
+
+Fixpoint serialisable (v : sval) : bool :=
+  match v with
+  | SSome v => serialisable v
+  | SNewtypeStruct v => serialisable v
+  | SNewtypeVariant _ v => serialisable v
+  | SSeq _ es => forallb serialisable es
+  | STuple es => forallb serialisable es
+  | STupleStruct es => forallb serialisable es
+  | STupleVariant _ es => forallb serialisable es
+  | SMap _ kvs => forallb (fun kv => key_ok (fst kv) && serialisable (snd kv)) kvs
+  | SStruct fs => forallb (fun kv => serialisable (snd kv)) fs
+  | SStructVariant _ fs => forallb (fun kv => serialisable (snd kv)) fs
+  | _ => true
+  end.
+
+(* what the theorems need of ryu (H1): the text of a finite float is an RFC 8259 number *)
+Definition ryu_json (fmt32 fmt64 : N -> bytes) : Prop :=
+  (forall b, finite32 b = true -> number_text_ok (fmt32 b) = true)
+  /\ (forall b, finite64 b = true -> number_text_ok (fmt64 b) = true).
+
 (* ---- the data-model image --------------------------------------------------------------------- *)
 Definition NUMBER_TOKEN_TEXT : bytes :=
   [36;115;101;114;100;101;95;106;115;111;110;58;58;112;114;105;118;97;116;101;58;58;78;117;109;98;101;114].
